@@ -39,6 +39,12 @@ checks = {
  "C13": ("fault_enumeration", "4 C13", "fault enumeration: a panic injected at every individual user-function invocation of generated programs, then observer reads / re-stabilise / drops checked",
    "Each generated program is re-executed once per user-function invocation it performs, with a panic injected there and caught by the caller; afterwards reads must fail (or, for a handler fault, equal the fully propagated model values), a further stabilise must refuse without invoking anything, and dropping everything must not panic or abort (worker processes detect aborts). Both build configurations.",
    "faults are injected only in functions the harness supplies (node functions, bind closures, boxed/fn cutoffs, handlers); bounded program sizes"),
+ "C14": (EXPL, "4 C14", "stateful PBT of expert-API constructions (dynamic sum, bind/join) against reference computations, with callback coherence asserted inside the recompute function",
+   "Generated histories change the dependency multiset from a child's function (shared, duplicate, bind-created and invalid children), request make_stale/invalidate, switch binds, observe/unobserve; the value, the documented validity rule, callback coherence at every recompute and the recompute count are compared with a model. Both build configurations.",
+   "constructions mutate dependencies only from a child's function; the validity rule is the documented one"),
+ "C19": (EXPL, "4 C19", "exhaustive parameter grid + random draws: height boundary N-2..N+2 for every way of configuring the limit, cycle / cross-state / nested-stabilise programs; oracle = accept-with-correct-values or diagnostic panic, drops afterwards",
+   "Complete grid over N, heights around N, four graph shapes and four configuration modes (engine height convention calibrated at run time), plus all cycle/cross-state/nested-stabilise variants; each must either be accepted with correct values or panic with the stated diagnostic at the right stabilise, and all handles and the state must be droppable afterwards. Worker processes turn stack overflows into violations; hangs are inconclusive.",
+   "monotone histories on fresh states (sticky heights equal true heights)"),
  "C15": (EXPL, "4 C15", "property-based differential testing of every diff operator on every map type against the plain std-collections definition, over edit and observe/unobserve histories",
    "Operator x map-type matrix with generated edit histories (insert/remove/change/clear/refill/equal write) and observe/unobserve toggles; after every observed stabilise the output must equal the plain function of the current input(s).",
    "small key/value domain (8 keys, 4 values); pure, invertible user functions"),
